@@ -320,6 +320,20 @@ class ParseContext:
 
     return _INVERSE_REGISTRY[fn_or_cls]
 
+  def knows(self, selector):
+    """Returns whether `selector` names a configurable known in this context.
+
+    With dynamic registration, a configurable is known if it can be resolved
+    through this context's imports, whether or not it has been registered yet.
+    """
+    if self._dynamic_registration:
+      try:
+        self._resolve_selector(selector)
+      except (NameError, AttributeError):
+        return False
+      return True
+    return bool(_REGISTRY.matching_selectors(selector))
+
   def get_configurable(self, selector):
     """Get a configurable matching the given `selector`."""
     if self._dynamic_registration:
@@ -839,7 +853,7 @@ def _validate_skip_unknown(skip_unknown):
 def _should_skip(selector, skip_unknown):
   """Checks whether `selector` should be skipped (if unknown)."""
   _validate_skip_unknown(skip_unknown)
-  if _REGISTRY.matching_selectors(selector):
+  if _parse_context().knows(selector):
     return False  # Never skip known configurables.
   if isinstance(skip_unknown, (list, tuple, set)):
     return selector in skip_unknown
